@@ -70,6 +70,22 @@ class Stats:
                 self.samples.append({"case": case_text.strip().split("\n"), "executions": res.get("executions"),
                                      "nontrivial_executions": res.get("nontrivial"), "labels": {k: v[0] for k, v in res.get("labels", {}).items()}})
 
+    def add_long(self, res):
+        """a long-stall run of one schedule of the program just added (runner called with --only i --long-stall N)"""
+        self.executions += res.get("executions", 0)
+        self.points += res.get("points", 0)
+        self.inconclusive += res.get("inconclusive", 0)
+        for k, v in res.get("strategies", {}).items():
+            if k.startswith("long_"):
+                self.strategies[k] = self.strategies.get(k, 0) + v
+        lab = res.get("labels", {})
+        for k, src in (("long_stall_runs", "long_stall_runs"), ("long_stall_polls", "stall_spins")):
+            if src in lab:
+                a = self.labels.setdefault(k, [0, 0])
+                a[0] += lab[src][0]
+                a[1] += lab[src][1]
+        self.event("long_stall_run")
+
     def to_json(self):
         return {"programs": self.programs, "distinct_programs": len(self.distinct_programs), "executions": self.executions,
                 "nontrivial": self.nontrivial, "distinct_nontrivial": self.distinct_nontrivial, "inconclusive": self.inconclusive,
